@@ -1,7 +1,7 @@
 import sys; sys.path.insert(0, '/verif/harness')
 import mkprops as m
 P = 'Proofs/Hands.v'
-IMP = 'From BE Require Import Model.Json Gen.JsonFns Proofs.JsonGen.\nFrom BE Require Import Model.Hands Proofs.Hands Gen.Regexes Proofs.Pins.\nFrom Coq Require Import Permutation.\nLocal Open Scope nat_scope.'
+IMP = 'From BE Require Import Model.Json Gen.JsonFns Proofs.JsonGen.\nFrom BE Require Import Gen.HandsFns Proofs.HandsGen.\nFrom BE Require Import Model.Hands Proofs.Hands Gen.Regexes Proofs.Pins.\nFrom Coq Require Import Permutation.\nLocal Open Scope nat_scope.'
 m.write('C14', 'Every deal survives every encoding round trip.', IMP, '', [
  (P, 'to_pbn_defined', 'C14_pbn_defined', 'every deal whose hands have 13 or 0 cards can be written from any first seat'),
  (P, 'pbn_roundtrip', 'C14_pbn_roundtrip', 'and is read back as the same four hands'),
@@ -16,6 +16,14 @@ m.write('C14', 'Every deal survives every encoding round trip.', IMP, '', [
  (P, 'json_roundtrip', 'C14_json_roundtrip', None),
  (P, 'json_sorted', 'C14_json_sorted', 'JSON cards strictly ascending by card index'),
  (P, 'json_lists_each_card_once', 'C14_json_each_card_once', None),
+ ('Proofs/HandsGen.v', 'to_pbn_gen', 'C14_generated_to_pbn_is_hand_model', 'Hands.to_pbn REGENERATED from hands.py on every run (harness/gen_hands.py) equals the hand model, for every deal and first seat'),
+ ('Proofs/HandsGen.v', 'convert_hand_to_pbn_gen', 'C14_generated_hand_to_pbn_is_hand_model', None),
+ ('Proofs/HandsGen.v', 'to_binary_gen', 'C14_generated_to_binary_is_hand_model', None),
+ ('Proofs/HandsGen.v', 'convert_binary_gen', 'C14_generated_convert_binary_is_hand_model', 'convert_binary regenerated (a missing key or a short vector raises); the hands come out in the reverse order of insertion, the same sets'),
+ ('Proofs/HandsGen.v', 'generate_random_hands_gen', 'C14_generated_dealer_is_hand_model', 'the random dealer regenerated, for every shuffle'),
+ ('Proofs/HandsGen.v', 'generated_pbn_roundtrip', 'C14_pbn_roundtrip_generated', 'the property, for the regenerated functions'),
+ ('Proofs/HandsGen.v', 'generated_binary_roundtrip', 'C14_binary_roundtrip_generated', None),
+ ('Proofs/HandsGen.v', 'generated_dealer_deals_a_deal', 'C14_dealer_generated', None),
  ('Proofs/JsonGen.v', 'g_deal_json_eq', 'C14_generated_deal_writer_is_hand_model', 'convert_deal REGENERATED from json_handler/writer.py on every run equals the hand model, for every deal'),
  ('Proofs/JsonGen.v', 'g_deal_of_json_eq', 'C14_generated_deal_reader_is_hand_model', 'hands_parser regenerated from json_handler/parser.py equals the hand model on every JSON value'),
  (P, 'pack_is_all_cards', 'C14_pack', None),
